@@ -120,6 +120,24 @@ class Clause:
         return eval(self.code, ns2)  # pylint: disable=eval-used
 
 
+def _give_env(objs, ns, depth=0, seen=None):
+    """Scripted collaborators evaluate their effect/return expressions in the sidecar's namespace."""
+    from native.bindings import Recorder
+    seen = seen if seen is not None else set()
+    for o in objs:
+        if id(o) in seen or depth > 6:
+            continue
+        seen.add(id(o))
+        if isinstance(o, Recorder):
+            o._env = ns  # pylint: disable=protected-access
+        if isinstance(o, dict):
+            _give_env(list(o.values()), ns, depth + 1, seen)
+        elif isinstance(o, (list, tuple, set, frozenset)):
+            _give_env(list(o), ns, depth + 1, seen)
+        elif hasattr(o, "__dict__"):
+            _give_env([v for k, v in vars(o).items() if not k.startswith("__")], ns, depth + 1, seen)
+
+
 def resolve_function(target):
     modname, qual = target.split(":")
     mod = importlib.import_module(modname)
@@ -177,6 +195,7 @@ class Harness:
         ns.update(gh)
         for an, aexpr in getattr(c, "aliases", {}).items():
             ns[an] = eval(aexpr, ns)  # pylint: disable=eval-used
+        _give_env(list(args.values()) + list(gh.values()), ns)
         # ghost sequences: G(0)=init, G(k+1)=step[prev, elem, k] folded over the real sequence
         for gname, gs in getattr(c, "ghost_seqs", {}).items():
             over = list(eval(gs["over"], ns))  # pylint: disable=eval-used
